@@ -249,28 +249,83 @@ def run_oracle(ctx, exe, cases):
     hist = collections.Counter()
     for c, out in zip(cases, lines):
         ctx.evaluations += 1
-        m = re.match(r'(OK|BAD) points=(\d+)', out)
+        m = re.match(r'(OK|BAD) points=(\d+) documented=(\d+)', out)
         if not m:
             bad.append((c, out, 'unparsable oracle output')); continue
         if int(m.group(2)) > 0:
             ctx.nontrivial.add(c)
         hist[c.split()[0]] += int(m.group(2))
+        if int(m.group(3)) > 0:
+            documented_limitation(ctx, c, int(m.group(3)), os.path.basename(exe))
         if m.group(1) == 'BAD':
             bad.append((c, out, out[:300]))
     if len(lines) < len(cases) and rc == 0:
         bad.append(('(oracle harness)', '', 'oracle harness printed %d of %d lines' % (len(lines), len(cases))))
-    ctx.coverage['oracle_failure_points'] = dict(hist)
+    tot = ctx.coverage.setdefault('oracle_failure_points', {})
+    for kk, vv in hist.items():
+        tot[kk] = tot.get(kk, 0) + vv
     return bad
 
 
+DOC_KEY = 'map-copyonly-pair-remove-value-changed'
+
+
+def documented_limitation(ctx, case, n, exen):
+    """HashMap.h:351-354 item 5 / TreeMap: key AND value both not nothrow-anyway-assignable -> a failed removal may change
+    the removed pair's value (MapUtility.h pvReplaceUnsafe).  Documented by momo, contradicts C10's conservation for
+    that configuration.  Reported as KNOWN-FINDING when known_findings.txt lists the key, else as a logged limitation."""
+    d = ctx.coverage.setdefault('documented_limitation_hits', {'key': DOC_KEY, 'failure_points': 0, 'first_case': case})
+    d['failure_points'] += n
+    if any(k['kind'] == 'known' and k['property'] == ctx.id and k['key'] == DOC_KEY for k in ctx.known_findings()):
+        ctx.violation('documented map limitation', {'case': case, 'cmd': 'echo "%s" | build/C10/%s' % (case, exen)}, key=DOC_KEY)
+    elif d['failure_points'] == n:
+        ctx.log('DOCUMENTED-LIMITATION (not a violation): copy-only key+value map, failed removal changed the removed pair\'s value: ' + case)
+
+
 # ----------------------------------------------------------------------------------------------- entry points
+ORACLES = ('oracle', 'oracle_std')
+
+
 def build_all(ctx):
-    jobs = [('harness.cpp', 'harness', [])]
-    if os.path.exists(os.path.join(ctx.pdir, 'oracle.cpp')):
-        jobs.append(('oracle.cpp', 'oracle', []))
-    if os.path.exists(os.path.join(ctx.pdir, 'oracle_std.cpp')):
-        jobs.append(('oracle_std.cpp', 'oracle_std', []))
-    return ctx.cxx_many(jobs)
+    """tie harness + the two oracle sources, each compiled once per element category (keeps every TU small)"""
+    fast = ['-O0', '-g0'] if ctx.quick() else []       # quick tier: compile time dominates (heavy templates), run time is ~1 s
+    jobs = [('harness.cpp', 'harness', fast)]
+    for name in ORACLES:
+        if os.path.exists(os.path.join(ctx.pdir, name + '.cpp')):
+            for c in CATS:
+                jobs.append((name + '.cpp', '%s_%s' % (name, c), fast + ['-DC10_CAT=kit::' + c]))
+    return cached_cxx_many(ctx, jobs)
+
+
+def cached_cxx_many(ctx, jobs):
+    """ctx.cxx_many with an up-to-date shortcut: an executable is reused when the SHA-256 of everything it is built
+    from (its source, the C10 / kit headers, every header under <repo>/include, the flags, the tier) is unchanged"""
+    import hashlib, glob
+    h = hashlib.sha256()
+    files = sorted(glob.glob(os.path.join(ctx.repo, 'include', '**', '*.h'), recursive=True)) + \
+        sorted(glob.glob(os.path.join(ctx.pdir, '*.h'))) + sorted(glob.glob(os.path.join(ctx.root, 'harness', '*.h')))
+    for f in files:
+        h.update(f.encode()); h.update(open(f, 'rb').read())
+    base = h.hexdigest()
+    res = {}; todo = []
+    for (src, exe, flags) in jobs:
+        key = hashlib.sha256((base + open(os.path.join(ctx.pdir, src)).read() + ' '.join(flags) + ctx.tier).encode()).hexdigest()
+        out = os.path.join(ctx.build, exe + ('.san' if ctx.tier == 'thorough' else ''))
+        stamp = out + '.sha'
+        if os.path.exists(out) and os.path.exists(stamp) and open(stamp).read() == key and os.environ.get('VERIF_NOCACHE') != '1':
+            res[exe] = out
+        else:
+            todo.append((src, exe, flags, key, stamp))
+    if todo:
+        built = ctx.cxx_many([(s, e, f) for (s, e, f, _, _) in todo])
+        for (s, e, f, key, stamp) in todo:
+            res[e] = built.get(e)
+            if built.get(e):
+                open(stamp, 'w').write(key)
+            elif os.path.exists(stamp):
+                os.remove(stamp)
+    ctx.coverage['cxx_rebuilt'] = [e for (_, e, _, _, _) in todo]
+    return res
 
 
 def run(ctx):
@@ -325,25 +380,28 @@ def run(ctx):
     ctx.stage('oracle:tie-outputs', not bad, bad[0][2] if bad else '')
     for (c, out, why) in bad[:3]:
         ctx.violation(why, {'case': c, 'impl_output': out[:1500], 'cmd': 'echo "%s" | build/C10/harness' % c}, found_input=True)
-    # ---- fault enumeration over many container kinds
-    for name in ('oracle', 'oracle_std'):
-        if os.path.exists(os.path.join(ctx.pdir, name + '.cpp')):
-            exe = exes.get(name)
+    # ---- fault enumeration over many container kinds (always; more seeds when a stage broke = the search stage)
+    broken = any(not st['ok'] for st in ctx.stages.values())
+    reps = (2 if ctx.quick() else 10) * (4 if broken else 1)
+    for name in ORACLES:
+        if not os.path.exists(os.path.join(ctx.pdir, name + '.cpp')):
+            continue
+        obad = []; nocases = 0
+        for c in CATS:
+            exe = exes.get('%s_%s' % (name, c))
             if exe is None:
-                ctx.stage('build-' + name, False, getattr(ctx, 'last_cxx_error', '')); continue
+                ctx.stage('build-%s_%s' % (name, c), False, getattr(ctx, 'last_cxx_error', '')); continue
             rcx, scen, _ = ctx.run_lines([exe, '--list'], os.devnull)
-            ocases = []
-            broken = any(not s['ok'] for s in ctx.stages.values())
-            reps = (1 if ctx.quick() else 4) * (4 if broken else 1)
-            for s in scen:
-                for rep in range(reps):
-                    ocases.append('%s %d' % (s, ctx.rng.range(1, 10 ** 6)))
-            obad = run_oracle(ctx, exe, ocases)
-            ctx.stage('oracle:' + name, not obad, obad[0][2] if obad else '')
-            for (c, out, why) in obad[:3]:
-                ctx.violation(why, {'case': c, 'impl_output': out[:1500], 'cmd': 'echo "%s" | build/C10/%s' % (c, name)}, found_input=True)
-            for c in ocases[:2]:
-                ctx.add_sample(c)
+            ocases = ['%s %d' % (sc, ctx.rng.range(1, 10 ** 6)) for sc in scen for rep in range(reps)]
+            nocases += len(ocases)
+            for (cs, out, why) in run_oracle(ctx, exe, ocases):
+                obad.append((cs, out, why, '%s_%s' % (name, c)))
+            for cs in ocases[:1]:
+                ctx.add_sample(cs)
+        ctx.stage('oracle:' + name, not obad, obad[0][2] if obad else '')
+        ctx.coverage.setdefault('oracle_cases', {})[name] = nocases
+        for (cs, out, why, exen) in obad[:3]:
+            ctx.violation(why, {'case': cs, 'impl_output': out[:1500], 'cmd': 'echo "%s" | build/C10/%s' % (cs, exen)}, found_input=True)
     for c in cases[::max(1, len(cases) // 5)][:5]:
         ctx.add_sample(c)
     ctx.coverage['input_distribution'] = dict(collections.Counter(c.split()[0] + ':' + c.split()[1] for c in cases))
@@ -356,7 +414,8 @@ def replay(ctx, rp):
         print('replay has no concrete case (no-failing-input-found): broken stages were', list(rp.get('broken', {}).keys())); return 1
     exes = build_all(ctx)
     cmd = rp.get('cmd', '')
-    name = 'oracle_std' if 'oracle_std' in cmd else 'oracle' if 'oracle' in cmd else 'harness'
+    m = re.search(r'build/C10/(\w+)', cmd)
+    name = m.group(1) if m else 'harness'
     exe = exes.get(name)
     if exe is None:
         print('harness does not build'); return 2
